@@ -281,7 +281,7 @@ structure SwapPlan where
   changeAmount : UInt64
   /-- amounts of the `change` blinded messages (empty when `changeAmount = 0`) -/
   change : List UInt64
-  deriving Repr
+  deriving DecidableEq, Repr
 
 inductive SendOutcome where
   /-- stored proofs are handed over as they are -/
@@ -289,7 +289,7 @@ inductive SendOutcome where
   /-- a swap request is built; the proofs handed over are the signed `plan.send` outputs (active keyset) -/
   | swap (plan : SwapPlan)
   | err (e : SelResult)
-  deriving Repr
+  deriving DecidableEq, Repr
 
 /-- `swapToSend` up to the swap request (spending condition does not change any amount). -/
 def swapToSend (srt : Sorter) (m : Mint) (inactive active : List P) (amount : UInt64) (includeFees : Bool) :
